@@ -173,6 +173,15 @@ type c05dRound struct {
 
 	writersDone atomic.Bool
 	panics      atomic.Int32
+
+	// Barrier of the writers: every c05dPhase operations all of them meet, and
+	// the last to arrive compares the file with memory while the others wait.
+	bmu     sync.Mutex
+	bcond   *sync.Cond
+	bcount  int
+	bgen    int
+	bbroken bool
+	phases  int
 }
 
 func c05dScratch() string {
@@ -241,7 +250,8 @@ func TestVerifC05Dhcpd(t *testing.T) {
 		return
 	}
 	for _, ev := range []string{"snapshots_validated", "store_overlaps_v4_v6", "stores_requested_by_v4",
-		"stores_requested_by_v6", "v4:ack", "v6:reply_with_address", "quiescence_checks"} {
+		"stores_requested_by_v6", "v4:ack", "v6:reply_with_address", "quiescence_checks",
+		"quiescence_comparisons_without_extra_store"} {
 		if rep.EventCount(ev) == 0 {
 			rep.Inconcl("event never observed: " + ev)
 		}
@@ -269,6 +279,7 @@ func (r *c05dRound) guard(name string, wg *sync.WaitGroup, f func(rng *rand.Rand
 			if p := recover(); p != nil {
 				st := debug.Stack()
 				r.panics.Add(1)
+				r.breakBarrier()
 				r.viol("panic:"+c05dPanicFunc(st), fmt.Sprintf("panic in goroutine %s: %v", name, p),
 					map[string]any{"goroutine": name, "stack": string(st)})
 			}
@@ -299,10 +310,54 @@ func (r *c05dRound) create() (s *server, err error) {
 	})
 }
 
+// c05dPhase is the number of operations of every writer between two
+// meetings.
+const c05dPhase = 15
+
+// c05dWriters is the number of writer goroutines.
+const c05dWriters = 5
+
+// meet is called by every writer before its i-th operation.
+func (r *c05dRound) meet(i int) {
+	if i == 0 || i%c05dPhase != 0 {
+		return
+	}
+	r.bmu.Lock()
+	defer r.bmu.Unlock()
+	if r.bbroken {
+		return
+	}
+	gen := r.bgen
+	r.bcount++
+	if r.bcount == c05dWriters {
+		// All writers are between two operations: every change has been
+		// committed and every store it requested has returned.
+		r.phases++
+		r.compare("lease-db:differs-from-memory-at-quiescence-without-extra-store", "between two phases of a round")
+		r.bcount = 0
+		r.bgen++
+		r.bcond.Broadcast()
+
+		return
+	}
+	for gen == r.bgen && !r.bbroken {
+		r.bcond.Wait()
+	}
+}
+
+// breakBarrier releases the writers for good (a writer is gone).
+func (r *c05dRound) breakBarrier() {
+	r.bmu.Lock()
+	r.bbroken = true
+	r.bcond.Broadcast()
+	r.bmu.Unlock()
+}
+
 // c05dWatchdog bounds one round.
 const c05dWatchdog = 120 * time.Second
 
 func (r *c05dRound) run(ops int) (finished bool) {
+	r.bcond = sync.NewCond(&r.bmu)
 	r.self = netip.MustParseAddr("192.168.50.2")
 	for i := 0; i < 12; i++ {
 		r.pool = append(r.pool, netip.AddrFrom4([4]byte{192, 168, 50, byte(20 + i)}))
@@ -391,6 +446,7 @@ func (r *c05dRound) run(ops int) (finished bool) {
 	}
 	if stalled {
 		r.writersDone.Store(true)
+		r.breakBarrier()
 		buf := make([]byte, 1<<20)
 		buf = buf[:runtime.Stack(buf, true)]
 		dump := filepath.Join(os.Getenv("VERIF_REPORT_DIR"), r.rep.Property+".dhcpd.stall.txt")
@@ -448,6 +504,7 @@ func (r *c05dRound) v4Clients(rng *rand.Rand, macBase byte, ops int) {
 		return m
 	}
 	for i := 0; i < ops; i++ {
+		r.meet(i)
 		c := cls[rng.Intn(len(cls))]
 		x := rng.Intn(100)
 		switch {
@@ -530,6 +587,7 @@ func (r *c05dRound) v4Static(rng *rand.Rand, ops int) {
 		return netip.AddrFrom4([4]byte{192, 168, 50, byte(100 + rng.Intn(6))})
 	}
 	for i := 0; i < ops; i++ {
+		r.meet(i)
 		mac := macs[rng.Intn(len(macs))]
 		switch x := rng.Intn(100); {
 		case x < 45:
@@ -578,6 +636,7 @@ func (r *c05dRound) v6Static(rng *rand.Rand, ops int) {
 		return netip.AddrFrom16(b)
 	}
 	for i := 0; i < ops; i++ {
+		r.meet(i)
 		mac := macs[rng.Intn(len(macs))]
 		switch x := rng.Intn(100); {
 		case x < 50:
@@ -639,6 +698,7 @@ func (r *c05dRound) v6Clients(rng *rand.Rand, ops int) {
 		return oia != nil && oia.Options.OneAddress() != nil
 	}
 	for i := 0; i < ops; i++ {
+		r.meet(i)
 		c := cls[rng.Intn(len(cls))]
 		switch {
 		case c.adv == nil && c.rep == nil || rng.Intn(10) == 0:
@@ -755,9 +815,118 @@ func (r *c05dRound) observer() {
 	}
 }
 
-// quiescence requests one more store and compares the file with memory.
+// c05dZeroExp marks a dynamic lease that was never committed.
+var c05dZeroExp = fmt.Sprintf("|static=false|exp=%d", time.Time{}.Unix())
+
+// c05dV6Offer reports whether the canonical entry e is a DHCPv6 lease that was
+// reserved for a SOLICIT and never committed.
+func c05dV6Offer(e string) bool {
+	p := strings.Split(e, "|")
+
+	return len(p) > 1 && strings.Contains(p[1], ":") && strings.HasSuffix(e, c05dZeroExp)
+}
+
+// compare reads leases.json and the tables in memory and requires them to
+// list the same leases.  It must only be called when no writer is inside an
+// operation.  With tolerateV6Offers (comparisons not preceded by a store of
+// their own) DHCPv6 leases reserved by a SOLICIT are left out on both sides:
+// (*v6Server).process adds them to the table without requesting a store.
+func (r *c05dRound) compareOpt(key, stage string, tolerateV6Offers bool) (data []byte, ok bool) {
+	if n4, n6 := r.in4.Load(), r.in6.Load(); n4 != 0 || n6 != 0 {
+		r.rep.Inconcl(fmt.Sprintf("round %d: %d/%d store requests still running at a quiescent point", r.n, n4, n6))
+
+		return nil, false
+	}
+	data, err := os.ReadFile(filepath.Join(r.dir, "data", dataFilename))
+	if err != nil {
+		if os.IsNotExist(err) && r.stores4.Load()+r.stores6.Load() == 0 {
+			return nil, false
+		}
+		r.viol("lease-db:missing-at-quiescence", "leases.json cannot be read "+stage+": "+err.Error(), nil)
+
+		return nil, false
+	}
+	file, err := c05dParse(data)
+	if err != nil {
+		r.viol("lease-db:invalid-at-quiescence", "leases.json is not one complete document "+stage+": "+err.Error(),
+			map[string]any{"size": len(data), "head": c05dClip(data)})
+
+		return data, false
+	}
+	var mem []string
+	r.v4.leasesLock.Lock()
+	for _, l := range r.v4.leases {
+		mem = append(mem, c05dLeaseStr(l))
+	}
+	r.v4.leasesLock.Unlock()
+	r.v6.leasesLock.Lock()
+	for _, l := range r.v6.leases {
+		mem = append(mem, c05dLeaseStr(l))
+	}
+	r.v6.leasesLock.Unlock()
+	sort.Strings(mem)
+	if tolerateV6Offers {
+		drop := func(in []string) (out []string) {
+			for _, e := range in {
+				if c05dV6Offer(e) {
+					r.rep.Unspec("DHCPv6 lease reserved by a SOLICIT (added to the table without a store request) left out of a comparison not preceded by a store")
+
+					continue
+				}
+				out = append(out, e)
+			}
+
+			return out
+		}
+		mem, file = drop(mem), drop(file)
+	}
+	r.rep.EventN("db_entries_compared_at_quiescence", len(file))
+	if strings.Join(mem, "\n") != strings.Join(file, "\n") {
+		var onlyMem, onlyFile []string
+		fm, mm := map[string]int{}, map[string]int{}
+		for _, e := range file {
+			fm[e]++
+		}
+		for _, e := range mem {
+			mm[e]++
+			if mm[e] > fm[e] {
+				onlyMem = append(onlyMem, e)
+			}
+		}
+		seen := map[string]int{}
+		for _, e := range file {
+			seen[e]++
+			if seen[e] > mm[e] {
+				onlyFile = append(onlyFile, e)
+			}
+		}
+		r.viol(key, "with every writer between two operations ("+stage+") leases.json does not list exactly the leases in memory",
+			map[string]any{"stage": stage, "only_in_memory": onlyMem, "only_in_file": onlyFile, "memory": mem, "file": file,
+				"stores_requested_so_far": r.stores4.Load() + r.stores6.Load()})
+
+		return data, false
+	}
+
+	return data, true
+}
+
+func (r *c05dRound) compare(key, stage string) {
+	r.rep.Event("quiescence_comparisons_without_extra_store")
+	r.compareOpt(key, stage, true)
+}
+
+// quiescence is run after all goroutines of the round are joined.  First the
+// file is compared with memory and loaded as it is: every committed change has
+// requested its own store after the commit, stores are serialized, so the
+// store that ran last read the tables after the last commit.  Only then one
+// more store is requested and the comparison repeated.
 func (r *c05dRound) quiescence() {
 	r.rep.Event("quiescence_checks")
+	r.phases++
+	r.rep.Event("quiescence_comparisons_without_extra_store")
+	data, _ := r.compareOpt("lease-db:differs-from-memory-at-quiescence-without-extra-store", "after all goroutines of the round were joined, before any further store", true)
+	r.reload(data, "before any further store")
+
 	func() {
 		defer func() {
 			if p := recover(); p != nil {
@@ -768,49 +937,23 @@ func (r *c05dRound) quiescence() {
 		// The call every change ends with.
 		r.v4.conf.notify(LeaseChangedDBStore)
 	}()
-	data, err := os.ReadFile(filepath.Join(r.dir, "data", dataFilename))
-	if err != nil {
-		r.viol("lease-db:missing-after-quiescence", "leases.json cannot be read after the final store: "+err.Error(), nil)
+	data, _ = r.compareOpt("lease-db:differs-from-memory-after-quiescence", "after all goroutines were joined and one more store was requested", false)
+	r.reload(data, "after the final store")
+	r.rep.EventN("phases", r.phases)
+}
 
-		return
-	}
-	file, err := c05dParse(data)
-	if err != nil {
-		r.viol("lease-db:invalid-after-quiescence", "leases.json is not one complete document after the final store: "+err.Error(),
-			map[string]any{"size": len(data), "head": c05dClip(data)})
-	} else {
-		var mem []string
-		r.v4.leasesLock.Lock()
-		for _, l := range r.v4.leases {
-			mem = append(mem, c05dLeaseStr(l))
-		}
-		r.v4.leasesLock.Unlock()
-		r.v6.leasesLock.Lock()
-		for _, l := range r.v6.leases {
-			mem = append(mem, c05dLeaseStr(l))
-		}
-		r.v6.leasesLock.Unlock()
-		sort.Strings(mem)
-		r.rep.EventN("db_entries_compared_after_quiescence", len(file))
-		if strings.Join(mem, "\n") != strings.Join(file, "\n") {
-			r.viol("lease-db:differs-from-memory-after-quiescence",
-				"after all goroutines were joined and one more store was requested leases.json does not list exactly the leases in memory",
-				map[string]any{"memory": mem, "file": file})
-		}
-	}
-	// The same file must load.
-	func() {
-		defer func() {
-			if p := recover(); p != nil {
-				st := debug.Stack()
-				r.viol("panic:"+c05dPanicFunc(st), fmt.Sprintf("panic while loading: %v", p), map[string]any{"stack": string(st)})
-			}
-		}()
-		if _, cerr := r.create(); cerr != nil {
-			r.viol("lease-db:reload-failed", "Create on the same DataDir failed: "+cerr.Error(),
-				map[string]any{"size": len(data), "head": c05dClip(data)})
-		} else {
-			r.rep.Event("reloads_ok")
+// reload requires the file as it is to load into a fresh server.
+func (r *c05dRound) reload(data []byte, stage string) {
+	defer func() {
+		if p := recover(); p != nil {
+			st := debug.Stack()
+			r.viol("panic:"+c05dPanicFunc(st), fmt.Sprintf("panic while loading: %v", p), map[string]any{"stack": string(st)})
 		}
 	}()
+	if _, cerr := r.create(); cerr != nil {
+		r.viol("lease-db:reload-failed", "Create on the same DataDir failed "+stage+": "+cerr.Error(),
+			map[string]any{"size": len(data), "head": c05dClip(data)})
+	} else {
+		r.rep.Event("reloads_ok")
+	}
 }
